@@ -117,6 +117,7 @@ P("dns_typeA", TYPE_A); P("dns_classIN", CLASS_IN); P("dns_timeout", DNS_TIMEOUT
     e = run_probe("p_rs", """
 P("rs_start", RS_START_DELAY); P("rs_stop", RS_STOP_DELAY); P("rs_dbl", RELAY_DOUBLE_TRY);
 P("rs_up", RS_RELAY_UP); P("rs_down", RS_RELAY_DOWN); P("rs_off", RS_RELAY_OFF);
+P("ac_filter", RS_AUTOCAL_FILTERING_TIME_MS); P("ac_min", RS_AUTOCAL_MIN_TIME_MS); P("ac_max", RS_AUTOCAL_MAX_TIME_MS);
 P("rs_max", RS_MAX_COUNT); P("input_max", INPUT_MAX_COUNT); P("relay_max", RELAY_MAX_COUNT);
 P("in_mincycle", INPUT_MIN_CYCLE_COUNT); P("in_cycle", INPUT_CYCLE_TIME); P("in_silent", INPUT_SILENT_STARTUP_TIME_MS);
 """, includes_c=["supla_esp.h", "supla_esp_gpio.h", "supla_esp_rs_fb.h"])
@@ -248,6 +249,7 @@ def emit_consts():
         "import SuplaVerif.Model.CfgStore",
         "import SuplaVerif.Model.Update",
         "import SuplaVerif.Model.UpdHdr",
+        "import SuplaVerif.Model.AutoCal",
         "namespace SuplaVerif.Gen",
         "",
         "def protoParams : ProtoParams :=",
@@ -284,6 +286,7 @@ def emit_consts():
         "  { startDelay := %s, stopDelay := %s, thresh := %s, oppUs := %s, preUs := %s, dblUs := %s, postUs := %s }" % (
             k["rs_start"], k["rs_stop"], k["rs_thresh"], k["rs_oppUs"], k["rs_preUs"], k["rs_dbl"], k["rs_postUs"]),
         "theorem rs_values_ok : (%s, %s, %s) = (2, 1, 0) := by decide" % (k["rs_up"], k["rs_down"], k["rs_off"]),
+        "def acParams : AcParams := { filterMs := %s, minMs := %s, maxMs := %s }" % (k["ac_filter"], k["ac_min"], k["ac_max"]),
         "def rsMaxCount : Nat := %s" % k["rs_max"],
         "def inputMaxCount : Nat := %s" % k["input_max"],
         "def relayMaxCount : Nat := %s" % k["relay_max"],
